@@ -91,8 +91,37 @@ func init() {
 
 func keepAllHandles(name string) bool { return name == "root" }
 
-// confReset returns the library to its initial state and clears the recorders.
+// warmHistory gives every case the same non-trivial past, whatever shard it runs in: the process
+// has already been configured, has logged located events with hooks set (through a sync and an async
+// logger, both caller modes) and has been destroyed. Defects that need a history (recycled pooled
+// objects, cached frames, left-over bindings) are then reachable from every case. Failures in here
+// are ignored: the case itself reports what matters.
+func warmHistory() {
+	safeCall(func() {
+		log.VerifReset(keepBuiltinTags, keepAllHandles)
+		log.Stdout = &bytes.Buffer{}
+		for _, fast := range []string{"false", "true"} {
+			if err := log.Refresh(map[string]string{"appender.hw.type": "Rec", "logger.root.type": "Logger", "logger.root.appenderRef.ref": "hw",
+				"appender.hx.type": "Rec", "logger.hist.type": "AsyncLogger", "logger.hist.bufferSize": "100", "logger.hist.tags": "_c01_*", "logger.hist.appenderRef.ref": "hx",
+				"enableCaller": "true", "fastCaller": fast}); err != nil {
+				return
+			}
+			log.StringFromContext = func(context.Context) string { return "hist-ctx" }
+			log.FieldsFromContext = func(context.Context) []log.Field { return []log.Field{log.String("hist", "field")} }
+			if tagC01 != nil {
+				log.Errorf(context.Background(), tagC01, "history %d", 1)
+				log.Info(context.Background(), tagC01, log.String("history", "2"), log.Int("n", 2))
+			}
+			rootHandleEnum.Write([]byte("history-raw\n"))
+			log.StringFromContext, log.FieldsFromContext = nil, nil
+			log.Destroy()
+		}
+	})
+}
+
+// confReset returns the library to its initial state (after a fixed warm-up history) and clears the recorders.
 func confReset() {
+	warmHistory()
 	log.VerifReset(keepBuiltinTags, keepAllHandles)
 	recMu.Lock()
 	defer recMu.Unlock()
